@@ -17,6 +17,9 @@
 //	version      the version field of the entry is replaced (header re-serialised): as trunc,
 //	             and on success the stale entry must be gone or replaced by the reference
 //	corrupt      one byte of the code body / CRC field is changed: as trunc (CRC must catch it)
+//	sequence     2-3 writers die one after the other at drawn crash points in one directory
+//	             (optionally starting from a foreign-version entry): invariant after each death,
+//	             then recovery
 //	concurrent   G goroutines (own cache handles and runtimes) and P processes compile into one
 //	             directory at once: no error, uncached traces, final file = reference
 //
@@ -1588,7 +1591,7 @@ func TestCache(t *testing.T) {
 			}
 		}
 	})
-	evid.Check(t, "cache-faults", evid.Scale(12, 200), runModule)
+	evid.Check(t, "cache-faults", evid.Scale(20, 200), runModule)
 	if sh, _ := evid.Shard(); sh != 0 {
 		return
 	}
